@@ -58,46 +58,103 @@ class EnumV(object):
 
 
 class ArrV(object):
-    """array of n elements.  Elements at constant indices live in `elems`;
-    the rest come from `fill` (a value) or `base` (an array term)."""
-    __slots__ = ("n", "w", "fill", "base", "elems")
+    """array of n elements.  Elements at constant indices live in 32-element chunks (persistent:
+    a store copies one chunk); unset elements come from `fill` (a value) or `base` (an array term)."""
+    __slots__ = ("n", "w", "fill", "base", "chunks", "_term")
+    CH = 32
 
-    def __init__(self, n, w, fill=None, base=None, elems=None):
+    def __init__(self, n, w, fill=None, base=None, elems=None, chunks=None):
         self.n = n
         self.w = w  # element width if scalar elements else None
         self.fill = fill
         self.base = base
-        self.elems = elems if elems is not None else {}
+        self._term = None
+        if chunks is not None:
+            self.chunks = chunks
+        else:
+            nch = (min(n, 1 << 20) + self.CH - 1) // self.CH if n < (1 << 40) else 0
+            ch = [None] * nch
+            if elems:
+                tmp = {}
+                for i, v in elems.items():
+                    tmp.setdefault(i >> 5, {})[i & 31] = v
+                for ci, d in tmp.items():
+                    ch[ci] = tuple(d.get(j) for j in range(self.CH))
+            self.chunks = tuple(ch)
+
+    @property
+    def elems(self):
+        d = {}
+        for ci, c in enumerate(self.chunks):
+            if c is not None:
+                for j, v in enumerate(c):
+                    if v is not None:
+                        d[(ci << 5) | j] = v
+        return d
 
     def get(self, i):
-        v = self.elems.get(i)
-        if v is not None:
-            return v
+        ci = i >> 5
+        if ci < len(self.chunks):
+            c = self.chunks[ci]
+            if c is not None:
+                v = c[i & 31]
+                if v is not None:
+                    return v
         if self.base is not None:
             return T.select(self.base, T.const(i, 64), self.w)
         return self.fill
 
     def set(self, i, v):
-        e = dict(self.elems)
-        e[i] = v
-        return ArrV(self.n, self.w, self.fill, self.base, e)
+        ci = i >> 5
+        if ci >= len(self.chunks):
+            raise Unsupported("constant index %d into an array of unknown extent" % i)
+        c = self.chunks[ci]
+        if c is None:
+            c = (None,) * self.CH
+        j = i & 31
+        c = c[:j] + (v,) + c[j + 1:]
+        chunks = self.chunks[:ci] + (c,) + self.chunks[ci + 1:]
+        return ArrV(self.n, self.w, self.fill, self.base, None, chunks)
+
+    def complete(self):
+        if self.n > (1 << 20):
+            return False
+        for ci, c in enumerate(self.chunks):
+            if c is None:
+                return False
+            lim = min(self.CH, self.n - (ci << 5))
+            for j in range(lim):
+                if c[j] is None:
+                    return False
+        return True
 
     def to_term(self):
+        if self._term is not None:
+            return self._term
         if self.w is None:
             raise Unsupported("symbolic index into array of aggregates")
-        if self.base is not None:
+        if self.base is None and self.fill is None or self.complete():
+            if not self.complete():
+                raise Unsupported("array with unset elements")
+            flat = []
+            for c in self.chunks:
+                flat.extend(c)
+            t = T.arr_lit(tuple(flat[:self.n]))
+        elif self.base is not None:
             base = self.base
             items = []
-            for i in sorted(self.elems):
-                v = self.elems[i]
+            for i, v in sorted(self.elems.items()):
                 if v is T.select(base, T.const(i, 64), self.w):
                     continue
                 items.append((i, v))
-            return T.arr_overlay(base, tuple(items))
-        fillt = self.fill
-        base = T.atom("arrfill", self.w, (fillt,), self.n)
-        items = tuple((i, self.elems[i]) for i in sorted(self.elems) if self.elems[i] is not fillt)
-        return T.arr_overlay(base, items)
+            t = T.arr_overlay(base, tuple(items))
+        else:
+            fillt = self.fill
+            base = T.atom("arrfill", self.w, (fillt,), self.n)
+            items = tuple((i, v) for i, v in sorted(self.elems.items()) if v is not fillt)
+            t = T.arr_overlay(base, items)
+        self._term = t
+        return t
 
     def select(self, idx):
         if idx.op == "const":
@@ -113,7 +170,7 @@ class ArrV(object):
         return [self.get(i) for i in range(self.n)]
 
     def __repr__(self):
-        return "ArrV(n=%d,%d set)" % (self.n, len(self.elems))
+        return "ArrV(n=%d)" % (self.n,)
 
 
 class Ref(object):
